@@ -500,10 +500,16 @@ impl Rebinds {
                     vec![(INT_TYPES[(d[2] / 2) as usize], d[2] % 2 == 1), (INT_TYPES[(d[3] / 2) as usize], d[3] % 2 == 1)],
                 ]
             }
-            _ => {
+            2 => {
                 let n = INT_TYPES.len() as u64 * 2;
                 let d = digits(idx, &[n, n, n]);
                 d.iter().map(|x| vec![(INT_TYPES[(*x / 2) as usize], x % 2 == 1)]).collect()
+            }
+            _ => {
+                let n = ALL_PARAM_TYPES.len() as u64 * 2;
+                let d = digits(idx, &[n, n, n, n]);
+                let t = |x: u64| (ALL_PARAM_TYPES[(x / 2) as usize], x % 2 == 1);
+                vec![vec![t(d[0]), t(d[1])], vec![t(d[2]), t(d[3])]]
             }
         }
     }
@@ -513,7 +519,7 @@ impl Family for Rebinds {
         crate::engine::rot(idx)
     }
     fn name(&self) -> String {
-        ["rebinds-one-parameter-all-type-pairs", "rebinds-two-parameters-integer-tables", "rebinds-one-parameter-integer-triples"][self.mode as usize].into()
+        ["rebinds-one-parameter-all-type-pairs", "rebinds-two-parameters-integer-tables", "rebinds-one-parameter-integer-triples", "rebinds-two-parameters-all-type-tables"][self.mode as usize].into()
     }
     fn len(&self) -> u64 {
         let a = ALL_PARAM_TYPES.len() as u64 * 2;
@@ -521,7 +527,8 @@ impl Family for Rebinds {
         match self.mode {
             0 => a * a,
             1 => i * i * i * i,
-            _ => i * i * i,
+            2 => i * i * i,
+            _ => a * a * a * a,
         }
     }
     fn run(&self, idx: u64, st: &mut Stats) -> Result<(), Violation> {
@@ -650,26 +657,30 @@ impl Family for AfterLongData {
 }
 
 pub fn build(quick: bool) -> Check {
+    let mut families: Vec<Box<dyn Family>> = vec![
+        Box::new(Values::new(quick)),
+        Box::new(Positions),
+        Box::new(Rebinds { mode: 0 }),
+        Box::new(Rebinds { mode: 1 }),
+        Box::new(Rebinds { mode: 2 }),
+        Box::new(Bitmaps {
+            max_all: if quick { 8 } else { 12 },
+            big: vec![63, 64, 65, 255, 256, 300],
+        }),
+        Box::new(AfterLongData),
+    ];
+    if !quick {
+        families.push(Box::new(Rebinds { mode: 3 }));
+    }
     Check {
         id: "C08",
         level: "model_checking",
-        rule: "COM_STMT_EXECUTE parameter blocks built from semantic values by the independent encoder and run through the real run_on; the shim records (type, raw inner value) and applies the documented Into<T> for the corresponding Rust type under catch_unwind. Domains: TINY, SHORT, YEAR exhaustive (signed and unsigned); LONG/INT24/LONGLONG over every 2^k, 2^k+-1 and the bounds; FLOAT/DOUBLE lattices incl. subnormals and infinities; byte strings of every length 0..300 and the length-class edges for all 14 string-like type codes, 65535..65537 (and around 2^24 in thorough); every legal length form of DATE/DATETIME/TIMESTAMP (0,4,7,11; DATE with a time part raw only) and TIME (0,8,12) over boundary calendar values, negative TIME raw only; all 25 type codes x unsigned in four position classes next to every other type; consecutive executions of one statement binding every ordered pair of (type, unsigned) tables (one parameter: all 50^2; two parameters: all 12^4 over the integer codes; triples 12^3), values with the top bit set; parameter counts 0..17, 63, 64, 65, 255, 256, 300 with all 2^n NULL bitmaps for n <= 10 (8 in quick) and structured ones above; inline executions that follow an execution fed by long data. Oracle: exactly n parameters, type = bound code, raw value = encoded value, conversion = encoded value (zero dates and negative TIME have no chrono/Duration form and are checked raw).".into(),
+        rule: "COM_STMT_EXECUTE parameter blocks built from semantic values by the independent encoder and run through the real run_on; the shim records (type, raw inner value) and applies the documented Into<T> for the corresponding Rust type under catch_unwind. Domains: TINY, SHORT, YEAR exhaustive (signed and unsigned); LONG/INT24/LONGLONG over every 2^k, 2^k+-1 and the bounds; FLOAT/DOUBLE lattices incl. subnormals and infinities; byte strings of every length 0..300 and the length-class edges for all 14 string-like type codes, 65535..65537 (and around 2^24 in thorough); every legal length form of DATE/DATETIME/TIMESTAMP (0,4,7,11; DATE with a time part raw only) and TIME (0,8,12) over boundary calendar values, negative TIME raw only; all 25 type codes x unsigned in four position classes next to every other type; consecutive executions of one statement binding every ordered pair of (type, unsigned) tables (one parameter: all 50^2; two parameters: all 12^4 over the integer codes, thorough: all 50^4 over every code; triples 12^3), values with the top bit set; parameter counts 0..17, 63, 64, 65, 255, 256, 300 with all 2^n NULL bitmaps for n <= 12 (8 in quick) and structured ones above; inline executions that follow an execution fed by long data. Oracle: exactly n parameters, type = bound code, raw value = encoded value, conversion = encoded value (zero dates and negative TIME have no chrono/Duration form and are checked raw).".into(),
         assumptions: vec!["wider integer, float and string domains are covered at lattices".into()],
-        bounds: json!({"all_bitmaps_up_to_params": if quick {8} else {10}}),
+        bounds: json!({"all_bitmaps_up_to_params": if quick {8} else {12}}),
         exhaustive: true,
         caps_hit: vec![],
-        families: vec![
-            Box::new(Values::new(quick)),
-            Box::new(Positions),
-            Box::new(Rebinds { mode: 0 }),
-            Box::new(Rebinds { mode: 1 }),
-            Box::new(Rebinds { mode: 2 }),
-            Box::new(Bitmaps {
-                max_all: if quick { 8 } else { 10 },
-                big: vec![63, 64, 65, 255, 256, 300],
-            }),
-            Box::new(AfterLongData),
-        ],
+        families,
         required: vec!["rebinds_changing_only_flags", "values_bound", "microsecond_forms", "second_bitmap_byte", "after_long_data"],
     }
 }
